@@ -164,7 +164,10 @@ def oracle(ctx):
                 extra = []
                 if rnd.random() < 0.5:
                     extra = [rnd.choice(['PodmanArgs=--pa 1', 'GlobalArgs=--ga', 'Label=zz=1' if ty in ('container', 'volume', 'network', 'build') else 'PodmanArgs=--pb'])]
-                cases.append((ty, key, kind, spec, v, base_lines + extra))
+                bl = base_lines
+                if ty == 'container' and key not in ('Image', 'Rootfs') and rnd.random() < 0.25:
+                    bl = ['Rootfs=/var/lib/rootfs']   # the other object a container can be about
+                cases.append((ty, key, kind, spec, v, bl + extra))
     base_ops, new_ops, metas = [], [], []
     for ty, key, kind, spec, v, lines in cases:
         sec = '[' + G.SEC[ty] + ']\n'
@@ -292,6 +295,12 @@ def oracle(ctx):
             fail = f'the Exec arguments must come last: {na[-3:]}'
         if ty == 'container' and 'localhost/img' in na and na.index('localhost/img') != len(na) - 3:
             fail = 'the image must directly precede the Exec arguments'
+        if ty == 'container' and 'Rootfs=/var/lib/rootfs' in text and na[-4:-2] != ['--rootfs', '/var/lib/rootfs']:
+            fail = f'--rootfs and its path must directly precede the Exec arguments: {na[-5:]}'
+        if ty == 'container' and key != 'PodmanArgs' and '--pa' in na and not fail:
+            obj = len(na) - (4 if 'Rootfs=/var/lib/rootfs' in text else 3)
+            if na.index('--pa') + 2 != obj:
+                fail = f'PodmanArgs must sit directly before the object (image or --rootfs) at {obj}: --pa at {na.index("--pa")}'
         if fail:
             res.oracle_failures.append(dict(op=op, input=text, impl_output=str(na), oracle_expectation=fail))
     res.samples.append(dict(kind='oracle-case', unit=metas[0][5], key=metas[0][1]))
